@@ -11,3 +11,10 @@ MUTANTS = [
     {'name': 'exporter converts pedal time with default clock', 'file': 'partitura/io/exportmatch.py', 'old': '        t = seconds_to_midi_ticks(c["time"], mpq=mpq, ppq=ppq)\n        value = int(c["value"])', 'new': '        t = seconds_to_midi_ticks(c["time"])\n        value = int(c["value"])', 'expect': 'CLOCK'}]
 
 NEUTRALS = []
+
+# changes made by sub-agents that were given only the property text (see /verif/seeded/<id>/): each must stay reported
+SEEDED = [
+    {'name': 'seeded change C08-r2', 'seed': 'C08-r2', 'expect': '|TICK-src|'},
+    {'name': 'seeded change C08', 'seed': 'C08', 'expect': '|SIB-dedupe|'},
+]
+MUTANTS += SEEDED
